@@ -269,16 +269,27 @@ Definition alloc_err (e : exn) : resp :=
   | _ => err 500 C_DEFAULT
   end.
 
+(* consumers the request created although it allocates nothing to them *)
+Fixpoint empty_created (ks : list cobj) (l : list cons_in) : list cobj :=
+  match ks, l with
+  | k :: ks', c :: l' =>
+      match ci_allocs c with
+      | [] => k :: empty_created ks' l'
+      | _ => empty_created ks' l'
+      end
+  | _, _ => []
+  end.
+
 (* _set_allocations_for_consumer *)
 Definition h_alloc_put (cf : cfg) (d : db) (v : Z) (c : cons_in) : db * resp :=
   match ensure_consumer cf v d c with
   | (d1, None) => (d1, err 409 C_CONCURRENT)
   | (d1, Some k) =>
       match alloc_objs d1 k (ci_allocs c) with
-      | None => (d1, err 400 C_DEFAULT)
+      | None => (delete_created d1 [k], err 400 C_DEFAULT)
       | Some objs =>
           match set_allocations (update_consumer d1 k) objs with
-          | Ok d2 => (d2, ok 204)
+          | Ok d2 => (delete_created d2 (empty_created [k] [c]), ok 204)
           | Err e => (delete_created d1 [k], alloc_err e)
           end
       end
@@ -314,10 +325,10 @@ Definition h_alloc_post (cf : cfg) (d : db) (v : Z) (l : list cons_in) : db * re
   | (d1, None) => (d1, err 409 C_CONCURRENT)
   | (d1, Some ks) =>
       match alloc_list d1 ks l with
-      | None => (d1, err 400 C_DEFAULT)
+      | None => (delete_created d1 ks, err 400 C_DEFAULT)
       | Some objs =>
           match set_allocations (fold_left update_consumer ks d1) objs with
-          | Ok d2 => (d2, ok 204)
+          | Ok d2 => (delete_created d2 (empty_created ks l), ok 204)
           | Err e => (delete_created d1 ks, alloc_err e)
           end
       end
@@ -406,10 +417,10 @@ Definition h_reshape (cf : cfg) (d : db) (v : Z) (ri : list rinv_in) (al : list 
       | (d1, None) => (d1, err 409 C_CONCURRENT)
       | (d1, Some ks) =>
           match alloc_list d1 ks al with
-          | None => (d1, err 400 C_DEFAULT)
+          | None => (delete_created d1 ks, err 400 C_DEFAULT)
           | Some objs =>
               match reshape_txn (fold_left update_consumer ks d1) ri objs with
-              | Ok d2 => (d2, ok 204)
+              | Ok d2 => (delete_created d2 (empty_created ks al), ok 204)
               | Err e => (delete_created d1 ks, reshape_err e)
               end
           end
